@@ -14,13 +14,23 @@
    case (mode 3, one future against scripted input): 3 side lazy pool names rscript input pay
                     (side 1 = dialer, 0 = listener); trace as mode 0
    case (mode 5, fallback -> main mapping): 5 pool cfg reports   (see Fallback.v)
+   case (mode 6, negotiation under the transports' timeout wrapper, `negotiate_protocol`):
+                    6 transport to_d to_l  0 pool ds ls sched dl_r dl_w ld_r ld_w dpay lpay
+                    (transport 0 = the TCP copy, 1 = the WebSocket copy of the function; to_d/to_l =
+                    timeouts in clock units; sched: 0 poll dialer, 1 poll listener, >= 2 one tick;
+                    names must be ASCII); trace as mode 0 with canonical (first-occurrence) indices,
+                    result code 9 = NegotiationError::Timeout
+   case (mode 7, the Negotiated stream as an I/O object): 7 lazy pool names rscript wscript input ops
+                    (op = 0 k read | 1 bytes write | 2 flush | 3 close); trace: see NegOps.v
+   case (mode 8, a request between two real nodes whose request-response protocols have fallback
+                    names): 8 transport pool cfgA cfgB k   (see Sub.v)
    case (mode 2, message-based dialer):    2 pool proto fallbacks ops   (op = 0 payload | 1)
    trace (mode 2):  1 (0 msg | 1) then per op: (0 code) for register_response, (1 0|1 msg|2) for
                     propose_next_fallback *)
 From Coq Require Import List NArith Bool.
 From V.common Require Import Wire.
-From V.C03 Require Import Model.
-From V.C03 Require Fallback.
+From V.C03 Require Import Model Timed NegOps.
+From V.C03 Require Fallback Sub.
 Import ListNotations.
 Open Scope N_scope.
 
@@ -138,9 +148,91 @@ Fixpoint run_wops (ops : list wop) (proto : name) (fbs : list name) (waiting : b
       end
   end.
 
+(* ---- mode 6 *)
+Definition ascii_name (n : name) : bool := forallb (fun b => b <? 128) n.
+
+Definition decode6 (t : list N) : option ncase :=
+  match pall p_case0 t with
+  | Some c =>
+      if negb (c_lazy c) && forallb ascii_name (c_ds c) && forallb ascii_name (c_ls c)
+      then Some c else None
+  | None => None
+  end.
+
+(* the transports report the negotiated NAME: indices in the trace are first occurrences *)
+Fixpoint first_idx (p : name) (l : list name) (i : N) : option N :=
+  match l with
+  | [] => None
+  | x :: t => if name_eqb p x then Some i else first_idx p t (i + 1)
+  end.
+Definition canon_idx (l : list name) (i : N) : N :=
+  match nth_error l (N.to_nat i) with
+  | Some p => match first_idx p l 0 with Some j => j | None => i end
+  | None => i
+  end.
+
+Definition trace6 (c : ncase) (s : sys) (status : N) : list N :=
+  let dres := t_res (s_d s) in
+  let lres := t_res (s_l s) in
+  [1; status;
+   fst dres; (if fst dres =? 0 then canon_idx (c_ds c) (snd dres) else snd dres);
+   fst lres; (if fst lres =? 0 then canon_idx (c_ls c) (snd lres) else snd lres);
+   t_end (s_d s); t_end (s_l s)] ++
+  enc_bytes (t_got (s_d s)) ++ enc_bytes (t_got (s_l s)) ++
+  enc_bytes (p_total (s_dl s)) ++ enc_bytes (p_total (s_ld s)) ++
+  enc_bytes (p_buf (s_dl s)) ++ enc_bytes (p_buf (s_ld s)).
+
+Definition run6 (l t : list N) : list N :=
+  match t with
+  | _ :: td :: tl :: body =>
+      match decode6 body with
+      | Some c =>
+          let '(s, status) := run_tsys td tl (run_fuel l) (c_sched c) false 0 (tinit c) in
+          trace6 c (ts_sys s) status
+      | None => [0]
+      end
+  | _ => [0]
+  end.
+
+(* ---- mode 7 *)
+Definition p_nop : parser nop :=
+  let* t := pN in
+  if t =? 0 then let* k := pN in pret (OpRead k)
+  else if t =? 1 then let* b := p_bytes in pret (OpWrite b)
+  else if t =? 2 then pret OpFlush
+  else if t =? 3 then pret OpClose
+  else pfail.
+
+Record case7 := mkC7 { c7_lazy : bool; c7_names : list name; c7_rs : list N; c7_ws : list N;
+                       c7_input : bytes; c7_ops : list nop }.
+
+Definition op_valid (op : nop) : bool :=
+  match op with OpRead k => 1 <=? k | OpWrite [] => false | _ => true end.
+
+Definition decode7 (t : list N) : option case7 :=
+  match pall (let* lazy := pBool in let* pool := plist p_name in let* ni := plist pN in
+              let* rs := plist pN in let* ws := plist pN in let* input := p_bytes in
+              let* ops := plist p_nop in
+              match pick pool ni with
+              | Some ns => pret (mkC7 lazy ns rs ws input ops)
+              | None => pfail
+              end) t with
+  | Some c => if forallb op_valid (c7_ops c) then Some c else None
+  | None => None
+  end.
+
+Definition run7 (t : list N) : list N :=
+  match decode7 t with
+  | Some c => run_session (c7_lazy c) (c7_names c) (c7_rs c) (c7_ws c) (c7_input c) (c7_ops c)
+  | None => [0]
+  end.
+
 Definition run_case (l : list N) : list N :=
   match l with
   | 5 :: t => Fallback.run_fallback t
+  | 6 :: t => run6 l t
+  | 7 :: t => run7 t
+  | 8 :: t => Sub.run_sub t
   | _ =>
   match decode_case l with
   | Some (Case0 c) =>
@@ -326,9 +418,192 @@ Definition ok3 (side lazy : bool) (ns : list name) (input : bytes) (o : obs0) : 
     end
   else true.
 
+(* ---- mode 6: negotiation under the timeout wrapper. Judged on the trace alone:
+   - both tasks terminate;
+   - a Timeout is only reported when the clock can have reached the deadline (at least `to`
+     ticks in the schedule);
+   - whoever reports success reports the dialer's first supported name (exact index), timeouts or
+     not; when both succeed the streams are transparent;
+   - with a common name, a failure of either side is only excused by a timeout of one of them
+     (the inherent two-generals case: the listener may have accepted while the dialer's timer
+     fires before it reads the confirmation), and the side that did succeed receives no byte at
+     all (never negotiation bytes as application data), ending on a clean EOF;
+   - without a common name both fail. *)
+Definition is_nil (b : bytes) : bool := match b with [] => true | _ => false end.
+
+Definition ok6 (td tl : N) (c : ncase) (o : obs0) : bool :=
+  (o_status o =? 0) &&
+  let all_wf := forallb wf_name (c_ds c) && forallb wf_name (c_ls c) in
+  let exp := find_idx (supported_b (c_ls c)) (c_ds c) 0 in
+  let ticks := ticks_of (c_sched c) in
+  let d_ok := o_dcode o =? 0 in
+  let l_ok := o_lcode o =? 0 in
+  (negb (o_dcode o =? C_TIMEOUT) || (td <=? ticks)) &&
+  (negb (o_lcode o =? C_TIMEOUT) || (tl <=? ticks)) &&
+  if all_wf then
+    match exp with
+    | Some (i, p) =>
+        (negb d_ok || (o_didx o =? i)) &&
+        (negb l_ok || match find_idx (name_eqb p) (c_ls c) 0 with
+                      | Some (j, _) => j =? o_lidx o
+                      | None => false
+                      end) &&
+        (if d_ok && l_ok then transparent c o
+         else
+           ((o_dcode o =? C_TIMEOUT) || (o_lcode o =? C_TIMEOUT)) &&
+           (negb d_ok || (is_nil (o_dgot o) && (o_dend o =? 0))) &&
+           (negb l_ok || (is_nil (o_lgot o) && (o_lend o =? 0))))
+    | None => negb d_ok && negb l_ok
+    end
+  else
+    if d_ok && l_ok then
+      match nth_name (c_ds c) (o_didx o), nth_name (c_ls c) (o_lidx o) with
+      | Some p, Some q => name_eqb p q && transparent c o
+      | _, _ => false
+      end
+    else true.
+
+(* ---- mode 7: the stream returned by the dialer for its single name p, against an input that
+   either starts with the listener's header and confirmation of p (what follows is application
+   data: `tail`) or does not. Judged on the trace alone:
+   - no operation panics, every operation becomes Ready;
+   - the bytes returned by the reads are, in order and unchanged, a prefix of `tail`, all of it
+     once a read reported EOF; with the negotiation completed, what was read plus what is left in
+     the pipe is exactly `tail` (no application byte consumed by the negotiation);
+   - if the input does not start with header + confirmation no read ever returns data or EOF;
+   - the wire carries the dialer's header and proposal followed by exactly the bytes the writes
+     accepted, in order; they are complete as soon as a write / flush / close / read succeeded;
+   - write, flush and close fail only after a failed read; after the first error every operation
+     fails, the stream is in the failed state and its outbound direction closed. *)
+Fixpoint strip_prefix (pre l : bytes) : option bytes :=
+  match pre, l with
+  | [], _ => Some l
+  | x :: pre', y :: l' => if x =? y then strip_prefix pre' l' else None
+  | _ :: _, [] => None
+  end.
+Definition is_prefix (a b : bytes) : bool :=
+  match strip_prefix a b with Some _ => true | None => false end.
+
+Definition p_ores : parser ores :=
+  let* t := pN in
+  if t =? 0 then pret OPending
+  else if t =? 1 then let* b := p_bytes in pret (OData b)
+  else if t =? 2 then let* n := pN in pret (ODone n)
+  else if t =? 3 then let* c := pN in pret (OErr c)
+  else pfail.
+
+(* one observed operation: the op of the case, the number of Pendings, the result *)
+Fixpoint p_obs_ops (ops : list nop) : parser (list (nop * N * ores)) :=
+  match ops with
+  | [] => pret []
+  | op :: t =>
+      let* tag := pN in let* np := pN in let* r := p_ores in
+      if tag =? op_tag op then let* rest := p_obs_ops t in pret ((op, np, r) :: rest) else pfail
+  end.
+
+Record obs7 := mkO7 { o7_ops : list (nop * N * ores); o7_state : N; o7_closed : N;
+                      o7_out : bytes; o7_left : bytes }.
+
+Definition reads_of (l : list (nop * N * ores)) : bytes :=
+  flat_map (fun x => match x with (OpRead _, _, OData bs) => bs | _ => [] end) l.
+Definition writes_of (l : list (nop * N * ores)) : bytes :=
+  flat_map (fun x => match x with (OpWrite d, _, ODone n) => firstn (N.to_nat n) d | _ => [] end) l.
+Definition is_err (r : ores) : bool := match r with OErr _ => true | _ => false end.
+Definition any_eof (l : list (nop * N * ores)) : bool :=
+  existsb (fun x => match x with (OpRead _, _, OData []) => true | _ => false end) l.
+Definition any_done (l : list (nop * N * ores)) : bool :=
+  existsb (fun x => match snd x with OData _ | ODone _ => true | _ => false end) l.
+Definition no_pending (l : list (nop * N * ores)) : bool :=
+  forallb (fun x => match snd x with OPending => false | _ => true end) l.
+(* after the first error only errors; the first error is the result of a read *)
+Fixpoint err_shape (l : list (nop * N * ores)) : bool :=
+  match l with
+  | [] => true
+  | (op, _, r) :: t =>
+      if is_err r then
+        match op with OpRead _ => true | _ => false end && forallb (fun x => is_err (snd x)) t
+      else err_shape t
+  end.
+Definition any_err (l : list (nop * N * ores)) : bool := existsb (fun x => is_err (snd x)) l.
+
+(* what the listener must have sent for the negotiation to succeed: header and confirmation —
+   the code is lenient about the header (a confirmation alone is accepted as well, both by
+   the V1 dialer and by the optimistic stream); what follows is application data *)
+Definition strip_neg (p : name) (input : bytes) : option bytes :=
+  match strip_prefix (frame MSG_HEADER ++ frame (p ++ [NL])) input with
+  | Some t => Some t
+  | None => strip_prefix (frame (p ++ [NL])) input
+  end.
+
+Definition ok7_stream (p : name) (input : bytes) (o : obs7) : bool :=
+  let neg := frame MSG_HEADER ++ frame (p ++ [NL]) in
+  let ops := o7_ops o in
+  let R := reads_of ops in
+  let W := writes_of ops in
+  no_pending ops && err_shape ops &&
+  (* outbound *)
+  is_prefix (o7_out o) (neg ++ W) &&
+  (negb (any_done ops) || bytes_eqb (o7_out o) (neg ++ W)) &&
+  (* state *)
+  (if any_err ops then (o7_state o =? 2) && (o7_closed o =? 1) else negb (o7_state o =? 2)) &&
+  (* inbound *)
+  match strip_neg p input with
+  | Some tail =>
+      negb (any_err ops) && is_prefix R tail &&
+      (negb (any_eof ops) || bytes_eqb R tail) &&
+      (negb (o7_state o =? 0) || bytes_eqb (R ++ o7_left o) tail)
+  | None =>
+      is_nil R && negb (any_eof ops) && negb (o7_state o =? 0)
+  end.
+
+Definition ok7 (c : case7) (tr : list N) : bool :=
+  match tr with
+  | code :: idx :: np :: rest =>
+      match c7_names c with
+      | [p] =>
+          if wf_name p then
+            let neg := frame MSG_HEADER ++ frame (p ++ [NL]) in
+            if code =? 0 then
+              match pall (let* ops := p_obs_ops (c7_ops c) in let* st := pN in let* cl := pN in
+                          let* out := p_bytes in let* lft := p_bytes in
+                          pret (mkO7 ops st cl out lft)) rest with
+              | Some o =>
+                  (idx =? 0) && ok7_stream p (c7_input c) o &&
+                  (* the V1 dialer only returns after it has read the confirmation *)
+                  (c7_lazy c || match strip_neg p (c7_input c) with Some _ => true | None => false end)
+              | None => false
+              end
+            else
+              (* the optimistic dialer settles at once; the V1 dialer fails only on an input that
+                 is not [header +] confirmation *)
+              negb (c7_lazy c) && match strip_neg p (c7_input c) with Some _ => false | None => true end
+          else true
+      | _ => true
+      end
+  | _ => false
+  end.
+
 Definition prop_ok (case trace : list N) : bool :=
   match case with
   | 5 :: t => Fallback.ok_fallback t trace
+  | 6 :: _ :: td :: tl :: body =>
+      match decode6 body, trace with
+      | Some c, 1 :: tb =>
+          match pall p_obs0 tb with
+          | Some o => ok6 td tl c o
+          | None => false
+          end
+      | None, [0] => true
+      | _, _ => false
+      end
+  | 6 :: _ => match trace with [0] => true | _ => false end
+  | 8 :: t => Sub.ok_sub t trace
+  | 7 :: t =>
+      match decode7 t, trace with
+      | Some c, 1 :: tb => ok7 c tb
+      | None, [0] => true
+      | _, _ => false
+      end
   | _ =>
   match decode_case case, trace with
   | Some (Case0 c), 1 :: body =>
